@@ -22,6 +22,43 @@ S.fields.update({"_subscribed_pattern": Opt(Opaque("Pattern")), "g_idle_time": R
 S.props.update({"subscribed_pattern": "self._subscribed_pattern", "fetcher_idle_time": "self.g_idle_time"})
 
 
+G.update({"_assignors": List(Ref("AssignorCls")), "_session_timeout_ms": INT})
+PROTO_ASSIGNMENT = Tup(STR, Opt(coordinator_rebalance.ASSIGNMENT_BYTES))
+
+
+@contract(MOD + ":GroupCoordinator._do_rejoin_group", ["C05", "C06"])
+def _(c):
+    """C05: "the assignments members adopt are exactly the ones distributed for that generation ... containing only
+    partitions of topics the member subscribed to ... data fetched under a superseded ... subscription is never
+    delivered", quantified over "subscription changes (including pattern matches appearing) during a rebalance": the
+    subscription a join was made for may be replaced at any await of the join (JoinGroup, the leader's assignment, the
+    SyncGroup wait); an assignment that comes back for a subscription that is no longer the active one is dropped."""
+    c.self_("GroupCoordinator")
+    c.param("subscription", Ref("Subscription"))
+    c.returns(BOOL)
+    c.local("assignment", Opt(PROTO_ASSIGNMENT))
+    c.none_raises = True
+    c.owns("self._client", "self._subscription", "self._retry_backoff_ms")
+    c.ghost("$adopted", BOOL, "False")
+    c.call("CoordinatorGroupRebalance", returns=Ref("Rebalance"), post=["fresh(result)", "result._subscription == a3"], nargs=7,
+           note="CoordinatorGroupRebalance.__init__: stores its arguments (the join is made for the subscription given)")
+    c.call("rebalance.perform_group_join", returns=Opt(PROTO_ASSIGNMENT), havoc_all=True, raises=["KafkaError", "CancelledError"],
+           note="perform_group_join (under contract, C06): JoinGroup, then SyncGroup; the (protocol, assignment bytes) "
+                "distributed to this member, or None when the join has to be retried")
+    c.call("asyncio.sleep", havoc_all=True, raises=["CancelledError"], note="suspends")
+    c.call("self._on_join_complete", havoc_all=True, raises=["BaseException"], ghost={"$adopted": "True"},
+           note="_on_join_complete: adopts the assignment (assign_from_subscribed), restarts the committed-offset refresh "
+                "and runs on_partitions_assigned")
+    c.raises("join-failed-or-cancelled", "BaseException")
+    c.hook("before", "self._on_join_complete", [
+        ("assert", "an-assignment-is-adopted-only-while-the-subscription-it-was-distributed-for-is-still-the-active-one",
+         "subscription.g_active"),
+        ("assert", "adopted-under-the-identity-of-the-join", "a0 == self.generation and a1 == self.member_id"),
+        ("assert", "adopts-what-the-join-returned", "assignment is not None and a2 == assignment[0] and a3 == assignment[1]"),
+    ])
+    c.ensures_internal("success-means-the-assignment-was-adopted", "result == $adopted")
+
+
 @contract(MOD + ":GroupCoordinator.ensure_active_group", ["C05", "C06"])
 def _(c):
     c.self_("GroupCoordinator")
